@@ -52,7 +52,7 @@ fn budget(prop: &str) -> (u64, u64) {
         "C13" => (80_000, 1_500_000),
         "C14" => (100_000, 2_000_000),
         "C20" => (30_000, 500_000),
-        "C16" => (40_000, 800_000),
+        "C16" => (30_000, 600_000),
         "C18" => (120_000, 2_500_000),
         "C17" => (120_000, 2_000_000),
         "C06" => (120_000, 2_500_000),
